@@ -92,11 +92,12 @@ def r2(fx):
     ms = fx.fn('encoder', 'make_segment')
     calls = [c for c in src.calls_in(ms, 'find_mode')]
     c = single(calls, 'find_mode call in make_segment')
-    okb = pat.match(c, 'find_mode(segment_data)') is not None
+    tg = nf.unpack_targets(ms, lambda x: src.call_name(x) == 'data_to_bytes')
+    okb = tg is not None and len(tg) == 3 and tg[0] is not None and pat.match(c, f'find_mode({tg[0]})') is not None
     d2b = fx.fn('encoder', 'data_to_bytes')
     rets = [s for s in ast.walk(d2b) if isinstance(s, ast.Return)]
     yield ob('find_mode is applied to the bytes returned by data_to_bytes', okb and len(rets) == 2, c, got=ast.unparse(c),
-             want='find_mode(segment_data)')
+             want='find_mode(<first element of data_to_bytes(data, encoding)>)')
 
 
 @rule('C07', 'R3', 2, 'is_kanji accepts exactly valid Shift JIS double-byte characters (truth table)')
